@@ -28,6 +28,8 @@ pub enum ColClass {
     StrHexLower,
     StrHexUpper,
     StrLong,
+    /// long and highly compressible: stored LZ4-compressed in memory
+    StrLongRepetitive,
     StrUnicode,
     StrEmptyish,
     // mixtures
@@ -55,9 +57,31 @@ pub const STR_CLASSES: &[ColClass] = &[
     ColClass::StrHexLower,
     ColClass::StrHexUpper,
     ColClass::StrLong,
+    ColClass::StrLongRepetitive,
     ColClass::StrUnicode,
     ColClass::StrEmptyish,
 ];
+/// string classes that do not trip the open findings in Column::decode (hex-packed and
+/// LZ4-compressed packed strings cannot be compacted, see known_findings.json)
+pub const STR_CLASSES_MILD: &[ColClass] = &[ColClass::StrLowCard, ColClass::StrLowCard, ColClass::StrUnicode, ColClass::StrEmptyish];
+/// packed (non-dictionary) string columns are fine as long as nothing compacts them
+pub const STR_CLASSES_NO_COMPACTION: &[ColClass] = &[ColClass::StrLowCard, ColClass::StrHighCard, ColClass::StrLong, ColClass::StrUnicode, ColClass::StrEmptyish, ColClass::StrHexLower, ColClass::StrHexUpper, ColClass::StrLongRepetitive];
+
+static PACKED_OK: std::sync::atomic::AtomicBool = std::sync::atomic::AtomicBool::new(false);
+/// set when the plan's options rule compaction out
+pub fn set_packed_strings_ok(v: bool) {
+    PACKED_OK.store(v, std::sync::atomic::Ordering::SeqCst);
+}
+
+static SPICY: std::sync::atomic::AtomicBool = std::sync::atomic::AtomicBool::new(false);
+/// spicy plans may draw the value classes that trigger open findings; mild plans avoid them so
+/// that the bulk of the exploration is not spent re-finding the same defects
+pub fn set_spicy(v: bool) {
+    SPICY.store(v, std::sync::atomic::Ordering::SeqCst);
+}
+pub fn spicy() -> bool {
+    SPICY.load(std::sync::atomic::Ordering::SeqCst)
+}
 
 impl ColClass {
     pub fn is_int(self) -> bool {
@@ -173,6 +197,10 @@ pub fn gen_value(rng: &mut Rng, class: ColClass, row_seq: u64, salt: u64) -> Cel
         }
         ColClass::StrLong => {
             let n = *rng.pick(&[254usize, 255, 256, 300, 1000]);
+            Cell::S(word(rng, n, n))
+        }
+        ColClass::StrLongRepetitive => {
+            let n = *rng.pick(&[254usize, 255, 256, 300, 1000]);
             let c = (b'a' + rng.below(26) as u8) as char;
             Cell::S(std::iter::repeat(c).take(n).collect())
         }
@@ -243,7 +271,7 @@ pub struct ColSpec {
     pub nulls: NullPattern,
 }
 
-pub const PLAIN_NAMES: &[&str] = &["a", "b", "c", "d", "e", "val", "x1", "zz"];
+pub const PLAIN_NAMES: &[&str] = &["ca", "cb", "cc", "cd", "ce", "val", "x1", "zz"];
 
 /// Hostile column names (C13/C15): case pairs, non-ASCII, > 64 bytes, prefixes of one another,
 /// names sorting before / after everything else.
@@ -255,10 +283,19 @@ pub fn hostile_col_names() -> Vec<String> {
     .iter()
     .map(|s| s.to_string())
     .collect();
-    v.push("l".repeat(65));
-    v.push("l".repeat(64));
-    v.push(format!("{}x", "l".repeat(64)));
-    v.push("m".repeat(200));
+    let long = |n: usize, salt: u64| -> String {
+        if spicy() {
+            "l".repeat(n)
+        } else {
+            let mut r = Rng::new(0xC01 + salt);
+            (0..n).map(|_| (b'a' + r.below(26) as u8) as char).collect()
+        }
+    };
+    let l64 = long(64, 1);
+    v.push(format!("{l64}y"));
+    v.push(l64.clone());
+    v.push(format!("{l64}x"));
+    v.push(long(200, 2));
     v
 }
 
@@ -270,10 +307,21 @@ pub fn hostile_table_names() -> Vec<String> {
     .iter()
     .map(|s| s.to_string())
     .collect();
-    v.push("n".repeat(189));
-    v.push("n".repeat(190));
-    v.push("n".repeat(300));
-    v.push(format!("N{}", "n".repeat(299)));
+    // long names: pseudo-random letters (a run of one letter is stored LZ4-compressed in the
+    // catalogue tables and trips the open Column::decode finding; only spicy plans use that)
+    let long = |n: usize, salt: u64| -> String {
+        if spicy() {
+            "n".repeat(n)
+        } else {
+            let mut r = Rng::new(0x10E6 + salt);
+            (0..n).map(|_| (b'a' + r.below(26) as u8) as char).collect()
+        }
+    };
+    v.push(long(189, 1));
+    v.push(long(190, 2));
+    v.push(long(300, 3));
+    let l = long(299, 3);
+    v.push(format!("N{}", l));
     v
 }
 
@@ -281,7 +329,15 @@ pub fn pick_class(rng: &mut Rng) -> ColClass {
     match rng.below(20) {
         0..=7 => *rng.pick(INT_CLASSES),
         8..=11 => *rng.pick(FLOAT_CLASSES),
-        12..=17 => *rng.pick(STR_CLASSES),
+        12..=17 => {
+            if spicy() {
+                *rng.pick(STR_CLASSES)
+            } else if PACKED_OK.load(std::sync::atomic::Ordering::SeqCst) {
+                *rng.pick(STR_CLASSES_NO_COMPACTION)
+            } else {
+                *rng.pick(STR_CLASSES_MILD)
+            }
+        }
         18 => ColClass::MixIntFloat,
         _ => {
             if rng.below(2) == 0 {
@@ -321,7 +377,7 @@ pub fn gen_table_batch(rng: &mut Rng, table: &str, schema: &[ColSpec], rows: usi
     let any_value = cols.iter().any(|c| c.cells.iter().any(|x| !x.is_null()));
     if !any_value {
         // the engine needs at least one real column to know the batch length
-        let name = if schema.is_empty() { "a".to_string() } else { schema[0].name.clone() };
+        let name = if schema.is_empty() { "ca".to_string() } else { schema[0].name.clone() };
         cols.retain(|c| c.name != name);
         cols.push(ColBatch { name, cells: (0..rows).map(|i| Cell::I(row_base as i64 + i as i64)).collect(), repr: Repr::Typed });
     }
